@@ -2,6 +2,7 @@
 (* C01, binding (P): every line of the observation file (env OBS) is one initial state; the invariant is the       *)
 (* verdict of X86Enc.tla on that observation.  Rejected observations print <<"REJECT", line, clause, row>>, not   *)
 (* judged ones <<"UNJUDGED", line, why>> (they do not violate the invariant); TLC runs with -continue.            *)
+(* Accepted observations that needed a named deviation action print <<"DEVIATION", line, name>>.                   *)
 EXTENDS X86Enc
 
 VARIABLE i
@@ -13,7 +14,7 @@ Next == UNCHANGED i
 Spec == Init /\ [][Next]_i
 
 Conforms == LET v == Verdict(Obs[i])
-            IN CASE v[1] = "ok" -> TRUE
+            IN CASE v[1] = "ok" -> v[2] = "" \/ PrintT(<<"DEVIATION", i, v[2]>>)
                  [] v[1] = "U"  -> PrintT(<<"UNJUDGED", i, v[2]>>)
                  [] OTHER       -> PrintT(<<"REJECT", i, v[2], v[3]>>) /\ FALSE
 =============================================================================
